@@ -60,7 +60,7 @@ Inductive event :=
 | EYield (p : nat)    (* p calls process.Yield *)
 | ERelease (p : nat). (* p calls process.Release *)
 
-Fixpoint upd {A} (n : nat) (x : A) (l : list A) : list A :=
+Fixpoint upd {A} (n : nat) (x : A) (l : list A) {struct l} : list A :=
   match l, n with
   | [], _ => []
   | _ :: r, 0 => x :: r
